@@ -37,7 +37,8 @@ func init() {
 			"~15% deliberately invalid steps (index == len or beyond, range end > len or begin > end, index/each/key/pipe on a value of the wrong " +
 			"shape, |number on non-numeric text, unknown function or pipe type); oracle = independent reference evaluator of the documented " +
 			"meaning: valid -> deep-equal value, invalid -> an error (not a panic, not a value). Generator B (1/3): arbitrary strings over the " +
-			"selector alphabet and token-level mutations of A: the call returns (no panic). Always: the document is unchanged, the selector is " +
+			"selector alphabet, token-level mutations of A, and well-formed multi-dimensional brackets mixing each / index / i:j / (m:n) / begin / " +
+			"end over arrays of arrays (value undocumented): the call returns (no panic). Always: the document is unchanged, the selector is " +
 			"evaluated on doc, a second document of a different shape, then doc again (cache miss, then hits) with identical outcomes. " +
 			"Non-trivial: >=2 steps and a non-NULL result, or an intentionally invalid step.",
 		Assumptions: []string{
@@ -404,10 +405,85 @@ func genRawSelector(t *rapid.T, doc map[string]any) string {
 	return sb.String()
 }
 
+// genMultiDimRaw builds a well-formed multi-dimensional bracket over an array-of-arrays key whose
+// dimensions mix each / index / i:j / (m:n) / begin / end freely. The value of such mixtures is not
+// documented, so only totality, read-only-ness and cache independence are asserted on them.
+func genMultiDimRaw(t *rapid.T, doc map[string]any) string {
+	var cands []string
+	for k, v := range doc {
+		if a, ok := v.([]any); ok && len(a) > 0 {
+			if _, ok := a[0].([]any); ok && !strings.ContainsAny(k, " .-") {
+				cands = append(cands, k)
+			}
+		}
+	}
+	if len(cands) == 0 {
+		return genRawSelector(t, doc)
+	}
+	sortStrings(cands)
+	key := rapid.SampledFrom(cands).Draw(t, "md.key")
+	outer := doc[key].([]any)
+	nd := rapid.IntRange(2, 3).Draw(t, "md.ndims")
+	var dims []string
+	for d := 0; d < nd; d++ {
+		l := fmt.Sprintf("md.d%d", d)
+		n := len(outer)
+		if d > 0 {
+			if in, ok := outer[0].([]any); ok {
+				n = len(in)
+			}
+		}
+		hi := maxInt(n, 1)
+		switch rapid.IntRange(0, 6).Draw(t, l+".form") {
+		case 0, 1:
+			dims = append(dims, "each")
+		case 2:
+			dims = append(dims, fmt.Sprint(rapid.IntRange(0, hi-1).Draw(t, l+".i")))
+		case 3:
+			a := rapid.IntRange(0, hi-1).Draw(t, l+".a")
+			dims = append(dims, fmt.Sprintf("%d:%d", a, rapid.IntRange(a, hi).Draw(t, l+".b")))
+		case 4:
+			a := rapid.IntRange(0, hi-1).Draw(t, l+".a")
+			dims = append(dims, fmt.Sprintf("(%d:%d)", a, rapid.IntRange(a, hi).Draw(t, l+".b")))
+		case 5:
+			dims = append(dims, fmt.Sprintf("(begin:%d)", rapid.IntRange(0, hi).Draw(t, l+".b")))
+		default:
+			dims = append(dims, fmt.Sprintf("(%d:end)", rapid.IntRange(0, hi-1).Draw(t, l+".a")))
+		}
+	}
+	sep := rapid.SampledFrom([]string{",", ", ", ":"}).Draw(t, "md.sep")
+	prefix := ""
+	if rapid.IntRange(0, 3).Draw(t, "md.keep") == 0 {
+		prefix = "keep=>"
+	}
+	return key + "[" + prefix + strings.Join(dims, sep) + "]"
+}
+
 func genC09(t *rapid.T) any {
 	c := &C09Case{Doc: genSelDoc(t, "doc"), Doc2: genSelDoc(t, "doc2")}
-	if rapid.IntRange(0, 2).Draw(t, "mode") == 0 {
+	switch rapid.IntRange(0, 5).Draw(t, "mode") {
+	case 0:
 		c.Raw = genRawSelector(t, c.Doc)
+		return c
+	case 1:
+		// make sure an array of arrays with at least 2x2 elements exists
+		rows := rapid.IntRange(2, 4).Draw(t, "mm.rows")
+		cols := rapid.IntRange(2, 4).Draw(t, "mm.cols")
+		deep := rapid.IntRange(0, 3).Draw(t, "mm.deep") == 0
+		mm := make([]any, 0, rows)
+		for i := 0; i < rows; i++ {
+			row := make([]any, 0, cols)
+			for j := 0; j < cols; j++ {
+				if deep {
+					row = append(row, []any{float64(i*10 + j), float64(100 + i*10 + j)})
+				} else {
+					row = append(row, float64(i*10+j))
+				}
+			}
+			mm = append(mm, row)
+		}
+		c.Doc["mm"] = mm
+		c.Raw = genMultiDimRaw(t, c.Doc)
 		return c
 	}
 	c.Sel, _ = genSelector(t, c.Doc)
